@@ -38,9 +38,10 @@ type Prog struct {
 	lockEngine *LockEngine
 	LoadS      float64
 
-	InlineSteps []inlineStep             // non-empty: this is the helper-inlined view (inlineview.go)
-	renamedFrom map[string]string        // current "rel.declName" -> reference name it is the renaming of
-	renamedTo   map[string]*ssa.Function // reference FnName -> the function that now carries another name
+	InlineSteps  []inlineStep // non-empty: this is the helper-inlined view (inlineview.go)
+	looseAnchors map[string]bool
+	renamedFrom  map[string]string        // current "rel.declName" -> reference name it is the renaming of
+	renamedTo    map[string]*ssa.Function // reference FnName -> the function that now carries another name
 
 	closureSites map[*ssa.Function][]*ssa.MakeClosure
 	callersOf    map[*ssa.Function][]ssa.CallInstruction // static + closure-resolved call sites
@@ -134,6 +135,9 @@ func loadProgOverlay(repo string, overlay map[string][]byte) (*Prog, error) {
 	// repository code (call-graph soundness).
 	for _, ip := range p.Pkgs {
 		for path := range ip.Imports {
+			if path == "reflect" && reflectUseIsBenign(ip) {
+				continue // type inspection only (TypeOf, Kind, DeepEqual): no call or store through reflection
+			}
 			if path == "unsafe" || path == "reflect" || path == "C" {
 				return nil, fmt.Errorf("assumption broken: %s imports %q", ip.PkgPath, path)
 			}
@@ -245,6 +249,48 @@ func (p *Prog) Fn(rel, name string) *ssa.Function {
 	return nil
 }
 
+// FnLoose is Fn with one more fallback, for anchors whose rules read parameters by
+// type rather than by position: when the named function is gone, the one
+// top-level function or method of the package that still carries the same simple
+// name (a function turned into a method, a parameter moved into the receiver).
+func (p *Prog) FnLoose(rel, name string) *ssa.Function {
+	if fn := p.Fn(rel, name); fn != nil {
+		return fn
+	}
+	base := name[strings.LastIndex(name, ".")+1:]
+	var found *ssa.Function
+	for _, fn := range p.fns {
+		if fn.Synthetic != "" || fn.Parent() != nil || fn.Name() != base || p.Rel(fn) != rel {
+			continue
+		}
+		if found != nil {
+			return nil
+		}
+		found = fn
+	}
+	if found != nil {
+		if p.looseAnchors == nil {
+			p.looseAnchors = map[string]bool{}
+		}
+		p.looseAnchors[p.FnName(found)] = true
+	}
+	return found
+}
+
+// paramOfType: the one parameter of fn (receiver included) whose type prints as typ.
+func paramOfType(fn *ssa.Function, typ string) *ssa.Parameter {
+	var out *ssa.Parameter
+	for _, par := range fn.Params {
+		if par.Type().String() == typ {
+			if out != nil {
+				return nil
+			}
+			out = par
+		}
+	}
+	return out
+}
+
 // RefName: the simple name fn had on the reference tree (its own name unless it was renamed).
 func (p *Prog) RefName(fn *ssa.Function) string {
 	if fn == nil {
@@ -260,6 +306,9 @@ func (p *Prog) RefName(fn *ssa.Function) string {
 func (p *Prog) indexRenames() {
 	p.renamedFrom = map[string]string{}
 	p.renamedTo = map[string]*ssa.Function{}
+	if p.looseAnchors == nil {
+		p.looseAnchors = map[string]bool{}
+	}
 	if referenceFns == nil {
 		return
 	}
@@ -452,4 +501,27 @@ func (p *Prog) realCallers(fn *ssa.Function) []ssa.CallInstruction {
 	}
 	rec(fn)
 	return out
+}
+
+// reflectUseIsBenign: the package uses package reflect only to inspect types
+// (TypeOf, Type, Kind and its constants, DeepEqual): nothing is called, set or
+// looked up by name through reflection, so the call graph and the store rules
+// stay sound.
+func reflectUseIsBenign(ip *packages.Package) bool {
+	if ip.TypesInfo == nil {
+		return false
+	}
+	allowed := map[string]bool{"TypeOf": true, "Type": true, "Kind": true, "DeepEqual": true, "String": true, "Name": true, "Elem": true}
+	for _, obj := range ip.TypesInfo.Uses {
+		if obj == nil || obj.Pkg() == nil || obj.Pkg().Path() != "reflect" {
+			continue
+		}
+		if _, isConst := obj.(*types.Const); isConst {
+			continue
+		}
+		if !allowed[obj.Name()] {
+			return false
+		}
+	}
+	return true
 }
